@@ -13,6 +13,8 @@ copied as they are (spec functions, lemmas, trusted prelude).  Directives:
       //@ret <name>            name the return value:  -> T   becomes   -> (name: T)
       //@trusted <reason>      keep the signature, drop the body (#[verifier::external_body]); listed as trusted
       //@subst R<k> "<from>" => "<to>"    textual rewrite of DESIGN 2.3; must match at least once
+      //@subst-opt R<k> "<from>" => "<to>"   the same, but zero occurrences are fine (used to route allocation APIs that the
+                               code does not call today, e.g. `Vec::with_capacity(`, to budgeted prelude shims if they appear)
       //@r3 <loop ordinal>     rewrite `for (a,b) in X.into_iter().enumerate()` / `for a in X` to an index loop
       //@spec                  following lines: requires/ensures/decreases clauses (before the body brace)
       //@loop <n>              following lines: invariant/decreases clauses of the n-th loop (textual order, 1-based)
@@ -49,6 +51,7 @@ class Block:
         self.ret = None
         self.trusted = None
         self.substs = []      # (rid, from, to)
+        self.subst_opt = set()   # (rid, from) of the //@subst-opt entries
         self.r3 = []          # loop ordinals
         self.spec = None
         self.loops = {}       # n -> text
@@ -147,6 +150,7 @@ def build_item(repo, blk, cache):
             cnt += 1
             start = p + len(frm)
         if cnt == 0:
+            if (rid, frm) in blk.subst_opt: continue
             raise ToolError("LOST-ANCHOR rewrite %s: %r not found in %s :: %s" % (rid, frm, blk.file, blk.path))
         rewrites.append({"id": rid, "from": frm, "to": to, "occurrences": cnt})
     # R7 (automatic, purely syntactic): Verus rejects `_` as a closure parameter; `|_|` becomes `|_v|`
@@ -287,13 +291,14 @@ def generate(repo, unit_tmpl):
                     elif d == "ret": blk.ret = rest
                     elif d == "trusted": blk.trusted = rest or "unspecified"
                     elif d == "keep-inner-attrs": blk.strip_inner_attrs = False
-                    elif d == "subst":
+                    elif d in ("subst", "subst-opt"):
                         rid, _, r2 = rest.partition(" ")
                         frm, r3 = parse_quoted(r2)
                         r3 = r3.strip()
                         if not r3.startswith("=>"): raise ToolError("%s:%d malformed //@subst" % (tf, n2))
                         to, _ = parse_quoted(r3[2:])
                         blk.substs.append((rid, frm, to))
+                        if d == "subst-opt": blk.subst_opt.add((rid, frm))
                     elif d == "r3": blk.r3.append(int(rest))
                     elif d == "spec": cur = ("spec",)
                     elif d == "loop": cur = ("loop", int(rest))
